@@ -158,6 +158,15 @@ CLAIMED = {
              "pairs of links sharing a stem. One defect repaired (fix: unused parking name instead of <stem>.delete).",
         technique="Coq proof (an invariant relating the file system to its initial state, preserved by every operation of the link) + directory-snapshot correspondence on real runs",
         design_ref="DESIGN.md §3 C19"),
+    "C21": dict(
+        text="S2 on the shared abstract file system (Cfs/Model.v): with default options, in a directory wild may modify, whether the old output is a mapped shared object or a running "
+             "executable, for every thread count and wherever the link stops (success, error return or kill), the inode the running process uses keeps its contents; the new output is a new "
+             "inode. Refuted for a directory in which the old name cannot be removed while the file itself is writable (recorded).",
+        note="Trusted: as C18 plus the kernel rule that a process executing or mapping an inode sees in-place modifications of it. Tie: real processes (a dynamically linked, libc-free program "
+             "and its library) report constants from their mapped/executing text before and after wild relinks the library / the program itself; a fresh process must see the new constants; "
+             "the unwritable-directory case is replayed as uid 65534.",
+        technique="Coq proof (case analysis over the link's file operations on an abstract file system) + correspondence with live processes across a relink",
+        design_ref="DESIGN.md §3 C21"),
     "C37": dict(
         text="S1 on top of C03: DT_NEEDED = the shared libraries in the verified loaded set, in command-line order. Theorems: listed iff loaded shared library; every --no-as-needed library listed; "
              "an --as-needed library listed only if some loaded file non-weakly references a name whose first definition it is; strictly increasing command-line positions (each at most once).",
